@@ -79,11 +79,44 @@ def _carries(M, name, value, is_dt):
     return any(v == value for v in cands)
 
 
+def golden_repr(v):
+    if isinstance(v, (bytes, bytearray)):
+        return "bytes:" + bytes(v).hex()
+    if isinstance(v, bool) or not isinstance(v, (int, type, tuple)):
+        return "repr:" + repr(v)[:80]
+    if isinstance(v, int):
+        return "int:%d" % v
+    if isinstance(v, type):
+        return "type:%s:%s" % (v.__name__, getattr(v, "code", None))
+    if hasattr(v, "_fields"):
+        return "attr:" + ":".join(str(getattr(x, "__name__", None) or (x.__class__.__name__ if not isinstance(x, (int, str, bytes)) else x)) for x in v)
+    return "repr:" + repr(v)[:80]
+
+
+_GOLDEN = None
+
+
+def golden_tables():
+    global _GOLDEN
+    if _GOLDEN is None:
+        import json
+        import os
+
+        _GOLDEN = json.load(open(os.path.join(os.path.dirname(os.path.dirname(os.path.dirname(os.path.abspath(__file__)))), "golden", "code_tables.json")))["tables"]
+    return _GOLDEN
+
+
 def check_table(rep, tname, M):
     from pycomm3.cip import DataTypes
 
     mem = members(M)
     is_dt = M is DataTypes
+    # the codes are protocol constants: every member shipped at the pinned commit keeps its value (golden/code_tables.json); members may be added
+    for n, want in golden_tables().get(tname, {}).items():
+        got = golden_repr(mem[n]) if n in mem else "(member removed)"
+        rep.case((tname, n, "golden"), outcome="golden:ok" if got == want else "golden:changed")
+        if got != want:
+            rep.violation("golden-code/changed", f"{tname}.{n} is {got}, the protocol constant shipped at the pinned commit is {want}", {"kind": "name", "table": tname, "name": n})
     for n, v in mem.items():
         for cname, key in casings(n).items():
             for how in ("item", "get", "in"):
